@@ -90,6 +90,7 @@ def ensure(cfg="default", repo=None, tag=None):
     """Return facts directory for `cfg`, extracting if the cache is stale.
     `repo`/`tag`: extract from another source tree (used by the mutant suite) into a separately tagged cache."""
     repo = repo or REPO
+    tag = tag or os.environ.get("VERIF_TAG") or None
     os.makedirs(CACHE, exist_ok=True)
     build_driver()
     name = cfg if tag is None else "%s@%s" % (cfg, tag)
